@@ -24,6 +24,19 @@ import AcVerif.DenseModel
 -/
 namespace AcVerif
 
+/-- decision constants from the request (Tie C), defaults = pinned tree -/
+def constsOf (r : Req) : Consts :=
+  let d : Consts := {}
+  { patternLimit := r.natD "K_PATTERN_LIMIT" d.patternLimit
+    teddyPatternLimit := r.natD "K_TEDDY_PATTERN_LIMIT" d.teddyPatternLimit
+    teddyMask1Limit := r.natD "K_TEDDY_MASK1_LIMIT" d.teddyMask1Limit
+    teddyBeefy := r.natD "K_TEDDY_BEEFY" d.teddyBeefy
+    prePackedPatlen := r.natD "K_PREFILTER_PACKED_PATLEN" d.prePackedPatlen
+    preRankSlack := r.natD "K_PREFILTER_RANK_SLACK" d.preRankSlack
+    bufferDefaultCap := r.natD "K_DEFAULT_BUFFER_CAPACITY_KB" 64 * 1024
+    bufferMinFactor := r.natD "K_BUFFER_MIN_FACTOR" d.bufferMinFactor
+    autoDfaLimit := r.natD "K_AUTO_DFA_LIMIT" d.autoDfaLimit }
+
 /-- the searcher model for a request + configuration -/
 structure Model where
   A : Aut (St UInt8) UInt8
@@ -175,7 +188,7 @@ def answer (r : Req) (c : Cfg) : String :=
         | .error e => s!"{e.name} emptyreads=0"
         | .ok () =>
           if r.op == "stream" then
-            match streamFind m.A rdr spare with
+            match streamFind m.A rdr spare (constsOf r).bufferMinFactor (constsOf r).bufferDefaultCap with
             | .error e => s!"{e.name} emptyreads=0"
             | .ok (ms, err, er) =>
               s!"{fmtList (ms.map fmtMat ++ (if err then ["io-err"] else []))} emptyreads={er}"
@@ -187,7 +200,7 @@ def answer (r : Req) (c : Cfg) : String :=
               if r.op == "streamrep" && repl.length != m.P.length then "panic emptyreads=0"
               else
                 let f := fun (x : Mat) => repl.getD (x.pid % (max repl.length 1)) []
-                match streamReplaceWith m.A rdr spare w f with
+                match streamReplaceWith m.A rdr spare w f (constsOf r).bufferMinFactor (constsOf r).bufferDefaultCap with
                 | .error e => s!"{e.name} emptyreads=0"
                 | .ok (w', log, ok, er) =>
                   let res := if ok then "ok" else "io-err"
@@ -237,19 +250,6 @@ def answerGate (r : Req) (c : Cfg) : String :=
         | none => "ok"
         | some e => e.name
   | _, _, _ => "bad-request:gate"
-
-/-- decision constants from the request (Tie C), defaults = pinned tree -/
-def constsOf (r : Req) : Consts :=
-  let d : Consts := {}
-  { patternLimit := r.natD "K_PATTERN_LIMIT" d.patternLimit
-    teddyPatternLimit := r.natD "K_TEDDY_PATTERN_LIMIT" d.teddyPatternLimit
-    teddyMask1Limit := r.natD "K_TEDDY_MASK1_LIMIT" d.teddyMask1Limit
-    teddyBeefy := r.natD "K_TEDDY_BEEFY" d.teddyBeefy
-    prePackedPatlen := r.natD "K_PREFILTER_PACKED_PATLEN" d.prePackedPatlen
-    preRankSlack := r.natD "K_PREFILTER_RANK_SLACK" d.preRankSlack
-    bufferDefaultCap := r.natD "K_DEFAULT_BUFFER_CAPACITY_KB" 64 * 1024
-    bufferMinFactor := r.natD "K_BUFFER_MIN_FACTOR" d.bufferMinFactor
-    autoDfaLimit := r.natD "K_AUTO_DFA_LIMIT" d.autoDfaLimit }
 
 /-- the prefilter of the searcher described by the request, if the request
 carries the frequency table (`freq=`) -/
